@@ -26,6 +26,9 @@ type config struct {
 	PMax      int64 `json:"parent_max,omitempty"`
 	PExpire   int64 `json:"parent_expire_sec,omitempty"`
 	PGC       int64 `json:"parent_gc_sec,omitempty"`
+	// Second: the flow also consults an independent fixed-window quota that never refuses (100000 per minute),
+	// through a second Limiter placed "after" or "before" the Limiter of the concurrency quota
+	Second string `json:"second_quota,omitempty"`
 }
 
 func (c config) quotaYAML() string {
@@ -33,11 +36,42 @@ func (c config) quotaYAML() string {
 		return fmt.Sprintf("%sstrategy:\n%s  concurrent:\n%s    max_request_count: %d\n%s    request_expiration_sec: %d\n%s    gc_interval_sec: %d\n",
 			indent, indent, indent, max, indent, exp, indent, gc)
 	}
-	if !c.Parent {
-		return "quotas:\n  - id: QC\n    filter:\n      url: \"h.com/*\"\n" + conc("    ", c.Max, c.ExpireSec, c.GCSec)
+	second := ""
+	if c.Second != "" {
+		second = "  - id: QF\n    filter:\n      url: \"h.com/*\"\n    strategy:\n      fixed_window:\n        max: 100000\n        interval: 1\n        interval_unit: minute\n"
 	}
-	return "quotas:\n  - id: QP\n    filter:\n      url: \"h.com/*\"\n" + conc("    ", c.PMax, c.PExpire, c.PGC) +
+	if !c.Parent {
+		return "quotas:\n  - id: QC\n    filter:\n      url: \"h.com/*\"\n" + conc("    ", c.Max, c.ExpireSec, c.GCSec) + second
+	}
+	return "quotas:\n  - id: QP\n    filter:\n      url: \"h.com/*\"\n" + conc("    ", c.PMax, c.PExpire, c.PGC) + second +
 		"internal_limits:\n  - id: QC\n    parent_id: QP\n" + conc("    ", c.Max, c.ExpireSec, c.GCSec)
+}
+
+// flowYAML of the configuration: the base flow, or the base flow with a second Limiter (quota QF) spliced in
+// behind / in front of the Limiter of the concurrency quota.
+func (c config) flowYAML() string {
+	if c.Second == "" {
+		return flowYAML
+	}
+	y := strings.Replace(flowYAML, "  Gen429:\n", "  LimF:\n    processor: Limiter\n    parameters:\n      - key: quota_id\n        value: QF\n  Gen429:\n", 1)
+	procEnd := func(n, cond string) string {
+		s := "        processor:\n          name: " + n + "\n"
+		if cond != "" {
+			s += "          condition: " + cond + "\n"
+		}
+		return s
+	}
+	extra := "    - from:\n" + procEnd("LimF", "above_limit") + "      to:\n" + procEnd("Gen429", "")
+	if c.Second == "after" {
+		// Lim/below_limit -> LimF ; LimF/below_limit -> Flt
+		y = strings.Replace(y, "          name: Lim\n          condition: below_limit\n      to:\n        processor:\n          name: Flt\n",
+			"          name: Lim\n          condition: below_limit\n      to:\n        processor:\n          name: LimF\n"+extra+"    - from:\n"+procEnd("LimF", "below_limit")+"      to:\n"+procEnd("Flt", ""), 1)
+	} else {
+		// stream start -> LimF ; LimF/below_limit -> Lim
+		y = strings.Replace(y, "          at: start\n      to:\n        processor:\n          name: Lim\n",
+			"          at: start\n      to:\n        processor:\n          name: LimF\n"+extra+"    - from:\n"+procEnd("LimF", "below_limit")+"      to:\n"+procEnd("Lim", ""), 1)
+	}
+	return y
 }
 
 const flowYAML = `name: cflow
@@ -150,6 +184,7 @@ func genConfig() *rapid.Generator[config] {
 			c.Parent = true
 			c.PMax, c.PExpire, c.PGC = rapid.Int64Range(1, 4).Draw(t, "pmax"), rapid.Int64Range(1, 5).Draw(t, "pexp"), rapid.Int64Range(1, 3).Draw(t, "pgc")
 		}
+		c.Second = rapid.SampledFrom([]string{"", "", "after", "before"}).Draw(t, "second")
 		return c
 	})
 }
@@ -335,7 +370,7 @@ func runHistoryInner(h hist) (nontrivial bool, classes map[string]int, err error
 	if e := dir.WriteQuota("q.yaml", h.Config.quotaYAML()); e != nil {
 		return false, classes, infraErr{e.Error()}
 	}
-	if e := dir.WriteFlow("f.yaml", flowYAML); e != nil {
+	if e := dir.WriteFlow("f.yaml", h.Config.flowYAML()); e != nil {
 		return false, classes, infraErr{e.Error()}
 	}
 	s, e := dir.Load()
